@@ -2,18 +2,21 @@
 
 M: FixationStore.tla (code-level transcription + abstract reference map `ref`) exhaustively with an
    operation budget: Refines (all Find/Get answers equal the reference's), GCSafe, ResAgree,
-   RefcountExact, NoPanic, PutNotRefused + internal sanity.  The spec is the code with the repairs
-   of fixes/F16-F18 (constants FixNN = TRUE); the as-found variant (FixNN = FALSE) is run
-   exhaustively as a *candidate generator*: every state in which the as-found design panics or
-   refuses a legal Put is emitted as a behaviour.
-G: candidates (shortest per class) + repository playbooks + TLC -simulate behaviours (two indices).
-R: harness/cmd/fixationstore replays them into the real FixationStore (stand-alone multistore, real
-   timer keeper ticking in BeginBlock); all observables for every (index, block) after every step.
+   RefcountExact, NoPanic, PutNotRefused + internal sanity.  The verdict configs model the code AS IT
+   IS: F16 and F18 are fixed in the repository (Fix16 = Fix18 = TRUE), F17/F17b are open known
+   findings (Fix17 = Fix17b = FALSE): the ghost `kf` is set by the operation that leaves a delete
+   timer behind; the invariants must hold up to there.  FixationStore_fixed.cfg (all TRUE, + NoKnown)
+   is the design-level demonstration that the F17 repair restores every invariant.
+   FixationStore_cand.cfg emits every state in which the as-is design panics, refuses a legal Put
+   or trips a known-finding cause: candidate behaviours.
+G: candidates (shortest per class, extended by ticks) + repository playbooks + TLC -simulate behaviours.
+R: harness/cmd/fixationstore replays them into the real FixationStore; all observables after every step.
 V: TLC validates the recorded trace against Trace_FixationStore in Conf mode on the observables
-   Find/Get/Has/Versions/result class; the invariants (reference-map equality etc.) are evaluated on
-   the matched states.  Model equality *is* the property, so a rejection is a violation (after
-   re-execution of the single behaviour in a fresh process).  Internal bookkeeping (refcounts,
-   timers, flags) is matched in a second pass and only reported as drift.
+   Find/Get/Has/Versions/result class, judging every behaviour on its own.  A rejection or a panic is a
+   violation (after re-execution).  A behaviour whose step is recognised BY THE SPEC as the cause of a
+   known finding (op pattern: DelEntry trimming / PutEntry cancelling a future version that carries
+   a pending delete) and whose real store then really holds a delete timer for a missing version is
+   reported with the narrow known-finding signature; its remaining steps are skipped.
 """
 import os
 import re
@@ -25,6 +28,9 @@ STALE = 2
 INDICES = ["a", "b"]
 QMAX = 17          # = MaxBlock + 1 of Trace_FixationStore.cfg / FixationStore_sim.cfg
 KINDS = ["append", "modify", "get", "put", "del", "tick"]
+KF_SIG = {"F17": "dangling-delete-timer@del-earlier-block-trims-future-version-with-pending-delete",
+          "F17b": "dangling-delete-timer@put-cancels-future-version-with-pending-delete"}
+KF_EV = {"F17": "del", "F17b": "put"}
 
 
 def S(a, x="", b=0, d=0):
@@ -104,15 +110,13 @@ def _tlc(ctx, chunks, tag, match_int="0"):
 
 def _reject_info(res, chunks):
     """-> (chunk index, 1-based line inside the chunk, kind, detail)"""
-    rows = [r for c in chunks for r in c]
     if res["violated"] == "postcondition":
         line = (res["reached"] or 0) + 1
+        kind, detail = "reject", "not-enabled"
         m = re.findall(r'<<"DIAG", (\d+), \{([^}]*)\}>>', res["out"])
-        if m:
+        if m and int(m[-1][0]) == line:
             names = sorted(x.strip().strip('"') for x in m[-1][1].split(","))
             kind, detail = "diverge", "+".join(names)
-        else:
-            kind, detail = "reject", "not-enabled"
     else:
         line = vlib.violated_line(res) or (res["reached"] or 1)
         kind, detail = "invariant", (res["violated"] or "").split(":")[-1]
@@ -124,46 +128,80 @@ def _reject_info(res, chunks):
     return len(chunks) - 1, len(chunks[-1]), kind, detail
 
 
+def _dangling(row):
+    """delete timers of the real store that refer to a version that does not exist"""
+    return [t for t in row["timers"] if t[1] == 2 and t[2] not in row["vers"].get(t[3], [])]
+
+
 def _examine(ctx, behs, tag, max_rounds=4):
-    """Replay + validate. Returns (findings, n_validated, stats). A finding = dict(sig, beh, event)."""
+    """Replay + validate, every behaviour judged on its own.
+    Returns (findings, n_validated, stats). A finding = dict(sig, beh, event, kind)."""
     chunks = _harness(ctx, behs, tag)
     findings = []
     stats = {"events": 0, "kinds": {k: 0 for k in KINDS}, "gc": 0, "ok_append": 0, "ok_del": 0, "found_get": 0,
-             "err": 0, "stale_hidden": 0}
-    good = []
-    for bi, c in enumerate(chunks):
-        if c[-1].get("panic"):
-            prev = c[-2] if len(c) > 1 else None
-            findings.append({"sig": _panic_sig(prev, c[-1]), "beh": behs[bi], "event": c[-1], "kind": "panic"})
-        else:
-            good.append((bi, c))
+             "err": 0, "stale_hidden": 0, "known_finding_behaviours": 0}
     validated = 0
     rounds = 0
-    rest = good
+    rest = list(enumerate(chunks))
     while rest:
+        cs = [c for _, c in rest]
         # first try observables + internal bookkeeping in one pass; if that is rejected the verdict
         # pass (observables only) decides and the internal mismatch is reported as drift
-        res = _tlc(ctx, [c for _, c in rest], "%s_r%d_int" % (tag, rounds), match_int="1") if rounds == 0 else None
+        res = _tlc(ctx, cs, "%s_r%d_int" % (tag, rounds), match_int="1") if rounds == 0 else None
         if res is None or not res["accepted"]:
             res1 = res
-            res = _tlc(ctx, [c for _, c in rest], "%s_r%d" % (tag, rounds))
+            res = _tlc(ctx, cs, "%s_r%d" % (tag, rounds))
             if res["accepted"] and res1 is not None:
                 ctx.drift.append("internal bookkeeping (refcount/flags/timers/index liveness) differs from the model at "
                                  "validated line %s of %s" % ((res1["reached"] or 0) + 1, tag))
+        # known-finding causes recognised by the spec: line -> class
+        starts = []
+        n = 0
+        for c in cs:
+            starts.append(n)
+            n += len(c)
+        kf_at = {}
+        for why, line in re.findall(r'<<"KF", "(\w+)", (\d+)>>', res["out"]):
+            line = int(line)
+            ci = max(i for i, st in enumerate(starts) if st < line)
+            kf_at[ci] = (why, line - starts[ci])
         if res["accepted"]:
-            ok = rest
-            rest = []
+            ok = list(range(len(rest)))
+            nxt = []
         else:
-            ci, off, kind, detail = _reject_info(res, [c for _, c in rest])
+            ci, off, kind, detail = _reject_info(res, cs)
             bi, c = rest[ci]
             ev = c[off - 1] if off - 1 < len(c) else {}
-            findings.append({"sig": "%s@%s:%s" % (kind, ev.get("ev"), detail), "beh": behs[bi], "event": ev, "kind": kind})
-            ok = rest[:ci]
-            rest = rest[ci + 1:]
-        for bi, c in ok:
-            validated += 1
-            stats["events"] += len(c) - 1
-            for i, r in enumerate(c[1:], 1):
+            if ev.get("panic"):
+                kind = "panic"
+                sig = _panic_sig(c[off - 2] if off >= 2 else None, ev)
+            else:
+                sig = "%s@%s:%s" % (kind, ev.get("ev"), detail)
+            findings.append({"sig": sig, "beh": behs[bi], "event": ev, "kind": kind})
+            ok = list(range(ci))
+            nxt = rest[ci + 1:]
+        for ci in ok:
+            bi, c = rest[ci]
+            upto = len(c)
+            if ci in kf_at:
+                why, off = kf_at[ci]
+                row = c[off - 1]
+                if row["ev"] != KF_EV.get(why) or not _dangling(row):
+                    raise vlib.Infra("the model (Fix17/Fix17b = FALSE) flags %s at step %d of a behaviour but the real store holds "
+                                     "no delete timer for a missing version there: the code no longer matches the as-is "
+                                     "model, switch Fix17/Fix17b in the cfgs (%s)" % (why, off - 1, vlib.json.dumps(behs[bi])[:300]))
+                later = ""
+                if c[-1].get("panic"):
+                    later = "; %d steps later the stale timer hits: panic in %s (%s)" % (
+                        len(c) - off, c[-1]["ev"], (c[-1].get("panics") or "")[:60])
+                findings.append({"sig": KF_SIG[why], "beh": behs[bi], "event": row, "kind": "known-cause",
+                                 "dangling": _dangling(row), "later": later})
+                stats["known_finding_behaviours"] += 1
+                upto = off
+            else:
+                validated += 1
+            stats["events"] += upto - 1
+            for i, r in enumerate(c[1:upto], 1):
                 stats["kinds"][r["ev"]] += 1
                 p = c[i - 1]
                 if r["ev"] == "tick" and any(len(r["vers"][x]) < len(p["vers"][x]) for x in INDICES):
@@ -178,20 +216,20 @@ def _examine(ctx, behs, tag, max_rounds=4):
                     stats["err"] += 1
                 # a version that is present but no longer findable at its own block (stale marker / deleted)
                 for x in INDICES:
-                    for v in r["vers"][x]:
-                        if v <= QMAX and r["find"][x][v][0] != v:
-                            stats["stale_hidden"] += 1
-                            break
+                    if any(v <= QMAX and r["find"][x][v][0] != v for v in r["vers"][x]):
+                        stats["stale_hidden"] += 1
+                        break
+        rest = nxt
         rounds += 1
         if rounds >= max_rounds and rest:
             ctx.notes.append("%s: %d behaviours left unvalidated after %d rejections" % (tag, len(rest), rounds))
             break
-    return findings, validated, stats, [c for _, c in good]
+    return findings, validated, stats
 
 
 def _reproduce(ctx, f, n):
     """Re-execute the single behaviour in a fresh harness process; it must fail the same way."""
-    fs, _, _, _ = _examine(ctx, [f["beh"]], "repro%d" % n, max_rounds=1)
+    fs, _, _ = _examine(ctx, [f["beh"]], "repro%d" % n, max_rounds=1)
     for g in fs:
         if g["sig"] == f["sig"]:
             return g
@@ -211,14 +249,19 @@ def _report(ctx, findings):
         if g is None:
             raise vlib.Infra("counter-example not reproduced: %s" % sig)
         ev = {k: g["event"].get(k) for k in ("ev", "x", "b", "d", "res", "panic", "panics", "now", "step")}
-        what = ("real fixation store deviates from FixationStore.tla on a legal operation sequence (step %s of %d): %s"
-                % (ev.get("step"), len(f["beh"]), vlib.json.dumps(ev)[:500]))
+        if g["kind"] == "known-cause":
+            what = ("legal operation (step %s of %d) %s leaves delete timer(s) %s for a version that no longer exists%s"
+                    % (ev.get("step"), len(f["beh"]), vlib.json.dumps(ev)[:200], g["dangling"], g["later"]))
+        else:
+            what = ("real fixation store deviates from FixationStore.tla on a legal operation sequence (step %s of %d): %s"
+                    % (ev.get("step"), len(f["beh"]), vlib.json.dumps(ev)[:500]))
         ctx.violation(sig, what, {"behaviours": [f["beh"]], "stale": STALE, "indices": INDICES})
 
 
 def _candidates(ctx):
-    """Exhaustive run of the AS-FOUND design (FixNN = FALSE): every panic / refused legal Put it can
-    reach within the budget is a candidate behaviour for the real code."""
+    """Exhaustive run of the design AS IT IS: every panic / refused legal Put / known-finding cause it can
+    reach within the budget is a candidate behaviour for the real code (extended by ticks so that the
+    consequence shows on the real store)."""
     res = vlib.tlc_emit(ctx, "FixationStore", "FixationStore_cand.cfg", timeout=ctx.pick(900, 1800),
                         workers=int(os.environ.get("VERIF_TLC_WORKERS", vlib.NCPU)), tag="FixationStore_cand")
     groups = {}
@@ -230,8 +273,8 @@ def _candidates(ctx):
     picked = []
     for key in sorted(groups):
         hs = sorted(groups[key], key=lambda h: (len(h), vlib.json.dumps(h, sort_keys=True)))
-        picked += hs[:ctx.pick(4, 12)]
-    ctx.notes.append("as-found design (Fix16/17/17b/18 = FALSE): %d bad states in %d distinct states, classes %s" % (
+        picked += [h + [T] * 5 for h in hs[:ctx.pick(4, 12)]]
+    ctx.notes.append("design as it is (Fix16/18 = TRUE, Fix17/17b = FALSE): %d bad states in %d distinct states, classes %s" % (
         len(res["behaviours"]), res["distinct"], sorted({k[0] + "@" + k[1] for k in groups})))
     return picked, res
 
@@ -240,12 +283,16 @@ def run(ctx):
     mc = vlib.tlc_mc(ctx, "FixationStore", ctx.pick("FixationStore_mcq.cfg", "FixationStore_mc.cfg"),
                      timeout=ctx.pick(600, 3000))
     if mc["violated"]:
-        raise vlib.Infra("design-level spec (with the F16-F18 repairs) violates %s; spec must be repaired (see %s)" % (
-            mc["violated"], mc["outfile"]))
-    ctx.add_mc("FixationStore exhaustive (1 index, %s)" % ctx.pick("4 ops", "6 ops"), mc)
+        raise vlib.Infra("design-level spec (code as it is; invariants up to a known-finding cause) violates %s; "
+                         "spec must be repaired (see %s)" % (mc["violated"], mc["outfile"]))
+    ctx.add_mc("FixationStore as it is, exhaustive (1 index, %s)" % ctx.pick("4 ops", "6 ops"), mc)
+    fx = vlib.tlc_mc(ctx, "FixationStore", "FixationStore_fixed.cfg", timeout=600)
+    if fx["violated"]:
+        raise vlib.Infra("design-level spec with the F17 repair violates %s (see %s)" % (fx["violated"], fx["outfile"]))
+    ctx.add_mc("FixationStore with the F17/F17b repair: all invariants + NoKnown (1 index, 4 ops)", fx)
 
     cands, cres = _candidates(ctx)
-    ctx.add_mc("FixationStore as-found candidate search (1 index, 6 ops)", cres)
+    ctx.add_mc("FixationStore as-it-is candidate search (1 index, 6 ops)", cres)
 
     sim = vlib.tlc_sim(ctx, "FixationStore", "FixationStore_sim.cfg", num=ctx.pick(200, 2500), depth=20,
                        timeout=ctx.pick(600, 1800))
@@ -266,11 +313,11 @@ def run(ctx):
                         "legal use = L1-L4 of DESIGN.md C14 (generated by the spec's Next/GenNext)",
                         "two indices only in simulation (indices interact only through timer order)",
                         "in-memory IAVL store behaves like the production store; stale period is constant"]
-    findings, validated, st, good = _examine(ctx, behs, "main")
+    findings, validated, st = _examine(ctx, behs, "main")
     ctx.cov["traces_validated_against_impl"] += validated
     ctx.cov["trace_events"] = st["events"]
     ctx.cov["trace_stats"] = st
-    if not findings:
+    if all(f["kind"] == "known-cause" for f in findings):
         # non-vacuity of what was validated
         missing = [k for k in KINDS if st["kinds"][k] == 0]
         if missing or st["gc"] == 0 or st["ok_del"] < 5 or st["ok_append"] < 20 or st["found_get"] < 5 \
@@ -282,7 +329,7 @@ def run(ctx):
 def replay(ctx, path):
     with open(path) as f:
         obj = vlib.json.load(f)
-    findings, validated, st, _ = _examine(ctx, obj["behaviours"], "replay")
+    findings, validated, st = _examine(ctx, obj["behaviours"], "replay")
     ctx.cov["traces_validated_against_impl"] += validated
     for f in findings:
         ev = {k: f["event"].get(k) for k in ("ev", "x", "b", "d", "res", "panic", "panics", "now", "step")}
